@@ -16,6 +16,7 @@ VARIABLES act, hist
 
 ExtsNone  == {<<>>}
 ExtsSmall == {<<1>>, <<33, 2>>}
+ExtsSim   == {<<1>>, <<33, 2>>, <<45>>, <<0, 17>>}
 
 MCInit == Init /\ act = [op |-> "init"] /\ hist = <<>>
 
